@@ -406,9 +406,23 @@ def pViews : P ViewDump := do
     let kid ← pInt; let key ← pBytes; let fl ← pBytes; let v ← pBytes; let f ← pBool; pure ((kid, key, fl, v), f))
   expect "VZ"; let zs ← pMany (do
     let kid ← pInt; let key ← pBytes; let v ← pBytes; let sc ← pScore; let f ← pBool; pure ((kid, key, v, sc), f))
+  -- (raw milliseconds, rendered text | "-") pairs of the etime / mtime columns (absent in old replays)
+  let rest ← get
+  let ts ← match rest with
+    | "VT" :: _ => do
+      expect "VT"
+      pMany (do
+        let ms ← pInt
+        let t ← tok
+        if t == "-" then pure (ms, (none : Option String))
+        else match parseBytes t with
+          | .ok b => pure (ms, some (String.ofList (b.map (fun c => Char.ofNat c.toNat))))
+          | .error e => throw e)
+    | _ => pure []
+  let timesOk := ts.all (fun p => Model.View.sqliteDatetime p.1 == p.2)
   pure { keys := ks.map (·.1), strs := ss.map (·.1), lists := ls.map (·.1), sets := es.map (·.1),
          hashes := hs.map (·.1), zsets := zs.map (·.1),
-         fmtOk := ks.all (·.2) && ss.all (·.2) && ls.all (·.2) && es.all (·.2) && hs.all (·.2) && zs.all (·.2) }
+         fmtOk := timesOk && ks.all (·.2) && ss.all (·.2) && ls.all (·.2) && es.all (·.2) && hs.all (·.2) && zs.all (·.2) }
 
 /-- verdict `W`: the views read from the real database are, as bags of rows, the views the model
 computes from the dumped tables at the same clock value -/
